@@ -216,7 +216,7 @@ def run_entry(binary, dirs, extra=None):
 def run(tier, seed, replay=None):
     res = Result("C09", tier, seed, RULE)
     rng = rng_for(seed, "C09")
-    n = {"quick": 1500, "thorough": 40000}[tier]
+    n = {"quick": 1500, "thorough": 150000}[tier]
     cg = probe.codegen_probe("default")
     bp = probe.build_probe()
     sets = [("json", curated_inputs("c09-curated"))]
